@@ -157,21 +157,24 @@ Definition consume_task (t : nat) (w : wst) : wst :=
   | None => w
   end.
 
-(* code variants: the current code, and the two earlier ones kept for the
-   refutation lemmas only *)
+(* code variants: the current code, the two earlier ones and one hypothetical
+   one, kept for the refutation lemmas only *)
 Record variant := mk_v {
   v_flush_arms : bool;       (* Driver::flush arms the notifier (since 43c7a63) *)
-  v_wake_after_spin : bool   (* Remote::schedule wakes the driver after a push that had to wait (since 98ca18e) *)
+  v_wake_after_spin : bool;  (* Remote::schedule wakes the driver after a push that had to wait (since 98ca18e) *)
+  v_local_wakes : bool       (* Local::schedule (a wake on the runtime's own thread) wakes the driver *)
 }.
-Definition current : variant := mk_v true true.
-Definition old_flush : variant := mk_v false true.
-Definition old_spin : variant := mk_v true false.
+Definition current : variant := mk_v true true true.
+Definition old_flush : variant := mk_v false true true.
+Definition old_spin : variant := mk_v true false true.
+Definition no_local_wake : variant := mk_v true true false.
 
 Inductive label :=
 | LR                 (* the runtime thread's next step *)
 | LTimeout           (* the runtime's blocking wait ends by timeout / signal *)
 | LSkip              (* polling driver: no events and a timeout: return before the second set_awake *)
-| LLocal (t : nat)   (* the future being polled wakes task t on the runtime thread *)
+| LLocal (t : nat)   (* task t is woken on the runtime thread: by the future being polled, or - external
+                        loop - by a host-loop callback / foreign task between the runtime's calls *)
 | LKNotify           (* kernel: the multishot poll posts a NOTIFY cqe *)
 | LKOther            (* kernel: some other completion / readiness event *)
 | LKTerm             (* kernel: the multishot poll ends (final cqe without MORE) *)
@@ -274,14 +277,25 @@ Definition local_notify (s : st) : st :=
   let d1 := d_flag (fl_wake f) (d s) in
   s_d (if fl_idle f then d_efd (notify_efd (c s) (efd d1)) d1 else d1) s.
 
-Definition rt_local (t : nat) (s : st) : option st :=
+(* the program points at which code other than the runtime's own calls runs on
+   the runtime thread: inside a poll of a future, and - when an external event
+   loop drives the runtime - between run / flush / the wait on the descriptor /
+   poll(zero).  At RExtWait the host loop has not gone to sleep yet, or woke up
+   for a reason of its own and is about to sleep again. *)
+Definition local_point (s : st) : bool :=
   match pc (r s) with
-  | RMain1 | RRunning =>
-    if Nat.ltb t (length (sched (e s)))
-    then Some (local_notify (s_e (e_hot (make_hot t (hot (e s))) (e s)) s))
-    else None
-  | _ => None
+  | RMain1 | RRunning => true
+  | RFlushArm | RExtWait => true
+  | RMain0 | RReset => ext (c s)
+  | _ => false
   end.
+
+(* Local::schedule: make_hot, then wake the driver *)
+Definition rt_local (v : variant) (t : nat) (s : st) : option st :=
+  if local_point s && Nat.ltb t (length (sched (e s))) then
+    let s1 := s_e (e_hot (make_hot t (hot (e s))) (e s)) s in
+    Some (if v_local_wakes v then local_notify s1 else s1)
+  else None.
 
 Definition after (k : cont) : wpc :=
   match k with KSpin => WPush true | KPushed => WFinish | KMain => WDone end.
@@ -339,7 +353,7 @@ Definition step_v (v : variant) (s : st) (l : label) : option st :=
     | RSetAwake2 => if uring (c s) then None else Some (goto RMain0 s)
     | _ => None
     end
-  | LLocal t => rt_local t s
+  | LLocal t => rt_local v t s
   | LKNotify =>
     if uring (c s) && karmed (d s) && Nat.ltb 0 (efd (d s))
     then Some (s_d (d_cq (cq (d s) ++ [CNotify]) (d s)) s) else None
